@@ -515,7 +515,10 @@ func d4(c *Ctx, isSeq bool, m mxj.Map, ms mxj.MapSeq, prefix, indent string, out
 			{"JsonWriterRaw", "Json", func(w *SimWriter) ([]byte, bool, error) { b, e := m.JsonWriterRaw(w); return b, true, e }},
 			{"JsonWriterRaw(safe)", "Json(safe)", func(w *SimWriter) ([]byte, bool, error) { b, e := m.JsonWriterRaw(w, true); return b, true, e }},
 			{"JsonIndentWriter", "JsonIndent", func(w *SimWriter) ([]byte, bool, error) { return nil, false, m.JsonIndentWriter(w, prefix, indent) }},
-			{"JsonIndentWriterRaw", "JsonIndent", func(w *SimWriter) ([]byte, bool, error) { b, e := m.JsonIndentWriterRaw(w, prefix, indent); return b, true, e }},
+			{"JsonIndentWriterRaw", "JsonIndent", func(w *SimWriter) ([]byte, bool, error) {
+				b, e := m.JsonIndentWriterRaw(w, prefix, indent)
+				return b, true, e
+			}},
 			{"JsonIndentWriterRaw(safe)", "JsonIndent(safe)", func(w *SimWriter) ([]byte, bool, error) {
 				b, e := m.JsonIndentWriterRaw(w, prefix, indent, true)
 				return b, true, e
